@@ -2,6 +2,7 @@ import ZstdVerif.Model.Conform
 import ZstdVerif.Model.Walker
 import ZstdVerif.Model.Bound
 import ZstdVerif.Model.Stream
+import ZstdVerif.Model.SeqApi
 import Driver.Util
 namespace Driver.Dec
 open ZstdVerif
@@ -89,6 +90,11 @@ def step (_ : Unit) (ws : List String) : Unit × String :=
              let hs := trs.toList.flatMap (fun t => Stream.hints (shape t))
              "ok " ++ ",".intercalate ((hs.take 12).map toString)
            | .error e => s!"err {e.cls}")
+  | ["seqaccept", bl, w, d, mm, srcSize, sq] =>
+      let seqs : List SeqApi.Seq := if sq == "-" then [] else (sq.splitOn ",").filterMap (fun t => match t.splitOn ":" with
+        | [a, b, c] => some ⟨a.toNat!, b.toNat!, c.toNat!⟩ | _ => none)
+      let cfg : SeqApi.Cfg := ⟨bl.toNat!, w.toNat!, d.toNat!, mm.toNat!⟩
+      ((), if SeqApi.acceptExplicit cfg (seqs.length + 2) seqs 0 srcSize.toNat! then "accept" else "reject")
   | ["walk", hx] =>
       let b := if hx == "-" then ByteArray.empty else ByteArray.ofHex hx
       ((), match Walker.frames (fun i => b.u8 i) (b.size + 1) 0 b.size with
